@@ -8,7 +8,7 @@
    of the sequential specification.  [abs_obs] abstracts a micro-state to the operation-granularity
    model of C01; [is_lin op pc] marks the linearizing micro-step (poll: the compare/register step
    holding both locks; set: the store holding the write lock; get / clone: their single step). *)
-From EB Require Import Obs ObsConc ObsConcFacts ObsConcLin.
+From EB Require Import Obs ObsConc ObsConcFacts ObsConcLin ObsConcProg.
 
 (* every micro-step of a value operation is either its linearization point - then the abstract
    state moves by exactly the sequential step of that operation, with the same result and the same
@@ -143,3 +143,60 @@ Theorem C04_schedule_linearizable :
          t_op th = le_op e /\ reports th out).
 Proof. intros V veq heq vdefault v ver clones subs pending ops sched; apply sched_linearizable. Qed.
 Print Assumptions C04_schedule_linearizable.
+
+(* ---- threads running programs (ObsConcProg.v) ----
+   Every thread runs a program of value operations; a thread whose operation has returned is
+   reloaded with its next operation when the director releases it again.  The log holds every
+   invocation (EInv), linearization point (ELin) and response (EResp) in the order in which they
+   happen.  Linearizability in the sense of Herlihy & Wing, for EVERY schedule:
+   (1) the operations in the order of their linearization points are a run of the sequential model
+       ending in the abstraction of the concurrent state, with the same wakers woken in the same order;
+   (2) at most one event of each kind per operation; (3) invocation < linearization point < response
+       for each operation; (4) program order; (5) every response reports the sequential result. *)
+Theorem C04_programs_linearizable :
+  forall (V : Type) (veq heq : V -> V -> bool) (vdefault : V) (v : V) ver clones subs pending progs sched,
+    value_ops (all_ops progs) ->
+    (forall k, In (CPoll k) (all_ops progs) -> k < length subs) ->
+    1 <= clones ->
+    let p0 := pinit v ver clones subs pending progs in
+    let p := prun p0 sched in
+    let log := p_log p in
+    exists outs,
+      seq_run veq heq vdefault (abs_obs (p_s p0)) (map (fun e => seq_op (pe_op e)) (lins log))
+        = Some (abs_obs (p_s p), outs, c_woken (p_s p)) /\
+      (forall i j e e', nth_error log i = Some e -> nth_error log j = Some e' ->
+         same_op e e' -> pe_kind e = pe_kind e' -> i = j) /\
+      (forall j e, nth_error log j = Some e -> pe_kind e = ELin ->
+         exists i e', i < j /\ nth_error log i = Some e' /\ same_op e e' /\ pe_kind e' = EInv /\ pe_op e' = pe_op e) /\
+      (forall j e, nth_error log j = Some e -> pe_kind e = EResp ->
+         exists i e', i < j /\ nth_error log i = Some e' /\ same_op e e' /\ pe_kind e' = ELin /\ pe_op e' = pe_op e) /\
+      (forall j e, nth_error log j = Some e -> pe_kind e = EInv -> 0 < pe_idx e ->
+         exists i e', i < j /\ nth_error log i = Some e' /\ pe_thread e' = pe_thread e /\
+                      S (pe_idx e') = pe_idx e /\ pe_kind e' = EResp) /\
+      (forall k e out j e', nth_error (lins log) k = Some e -> nth_error outs k = Some out ->
+         nth_error log j = Some e' -> pe_kind e' = EResp -> same_op e e' -> reports_ev e' out).
+Proof.
+  intros V veq heq vdefault v ver clones subs pending progs sched.
+  apply prog_linearizable.
+Qed.
+Print Assumptions C04_programs_linearizable.
+
+(* consistent with real time: an operation that returned before another was invoked is linearized
+   before it *)
+Theorem C04_programs_real_time :
+  forall (V : Type) (veq heq : V -> V -> bool) (vdefault : V) (v : V) ver clones subs pending progs sched,
+    value_ops (all_ops progs) ->
+    (forall k, In (CPoll k) (all_ops progs) -> k < length subs) ->
+    1 <= clones ->
+    let log := p_log (prun (pinit v ver clones subs pending progs) sched) in
+    forall ia ja ib jb ra la ib' lb,
+      nth_error log ia = Some ra -> pe_kind ra = EResp ->
+      nth_error log ja = Some la -> pe_kind la = ELin -> same_op la ra ->
+      nth_error log ib = Some ib' -> pe_kind ib' = EInv ->
+      nth_error log jb = Some lb -> pe_kind lb = ELin -> same_op lb ib' ->
+      ia < ib -> ja < jb.
+Proof.
+  intros V veq heq vdefault v ver clones subs pending progs sched.
+  exact (prog_real_time veq heq vdefault v ver clones subs pending progs sched).
+Qed.
+Print Assumptions C04_programs_real_time.
